@@ -9,6 +9,10 @@
 // serialisation (modulo the encryption flag fields); for bip44, addresses derived while locked
 // gain their (reference-checked) secrets on unlock.
 //
+// Monitor L (legacy.go): the same oracle for wallets LOADED FROM FILES with incomplete or edited
+// metadata (the repository's old *.wlt fixtures and structured mutations of current files), the
+// expected secrets read from the file by the harness.
+//
 // Monitor B (robust decryption): Decrypt of arbitrary bytes, in a child process, each batch of
 // inputs written to disk first and every input announced before the call. Oracle: success only
 // for an unmodified ciphertext with the right password and then with the right plaintext;
@@ -53,16 +57,24 @@ func main() {
 	wfix.Quiet()
 	r := vf.Start("C18", "exploration")
 
+	only := os.Getenv("VERIF_C18_ONLY") // development aid: "A", "B" or "L" (the floors of the other monitors then fail)
+
+	// ---- monitor L (wallet files: legacy / edited metadata), see legacy.go. Its few cases that
+	// need the default scrypt keep running in the background while A and B work ----
+	waitL := func() {}
+	if only == "" || only == "L" {
+		waitL = monitorL(r)
+	}
+
 	// ---- monitor A ----
 	nA := r.Pick(300, 5000)
-	if !r.Quick() {
+	if !r.Quick() && only != "L" {
 		// the default (N=2^20, ~1 GiB) scrypt registration, sequentially, a couple of times
 		for i := 0; i < 2; i++ {
 			roundTrip(r, -1-i, true)
 		}
 	}
-	only := os.Getenv("VERIF_C18_ONLY") // development aid: "A" or "B" (the floors of the other monitor then fail)
-	if only == "B" {
+	if only == "B" || only == "L" {
 		nA = 0
 	}
 	vf.Parallel(nA, 16, func(i int) {
@@ -73,9 +85,10 @@ func main() {
 	})
 
 	// ---- monitor B ----
-	if only != "A" {
+	if only != "A" && only != "L" {
 		monitorB(r)
 	}
+	waitL()
 
 	q := r.Quick()
 	fl := func(k string, qv, tv int64) {
@@ -98,6 +111,7 @@ func main() {
 	fl("A.unlock.identical", 300, 5000)
 	fl("A.unlock.via_reloaded_file", 80, 1200)
 	fl("A.bip44.locked_generation.secrets_gained", 100, 1500)
+	floorsL(r, fl)
 	fl("B.inputs", 40000, 2000000)
 	for _, c := range []string{"sha256-xor", "scrypt-chacha20poly1305"} {
 		fl("B."+c+".valid.accepted", 100, 4000)
@@ -112,10 +126,11 @@ func main() {
 	fl("B.scrypt-chacha20poly1305.crafted_meta.reached_aead", 300, 15000)
 	fl("B.scrypt-chacha20poly1305.crafted_prefix", 1200, 60000)
 	fl("B.sha256-xor.crafted_checksum", 1500, 60000)
-	r.Finish("A: wallets (deterministic / bip44 incl. change chain and second account / collection) with random seeds, passphrases and passwords, locked with sha256-xor or scrypt (insecure registration; the default one twice in the thorough tier); B: per cipher random bytes, random base64, valid ciphertexts (right/wrong password), every kind of text- and raw-level deletion/truncation/bit flip, and structured metadata (length prefix, JSON fields, scrypt parameters, nonce/salt sizes; for sha256-xor payload edits with a recomputed outer checksum); all drawn from the run seed",
+	r.Finish("A: wallets (deterministic / bip44 incl. change chain and second account / collection) with random seeds, passphrases and passwords, locked with sha256-xor or scrypt (insecure registration; the default one twice in the thorough tier); L: wallet files (the repository's *.wlt fixtures and serialisations of fresh wallets) passed through a structured JSON mutator of the optional meta fields (removed / empty / version-0.1 profile / coin alias / no crypto type), loaded with wallet.Load, then locked, saved, reloaded, opened with other passwords and the right one, locked again with a second password - expected secrets taken from the file by the harness' own JSON model; B: per cipher random bytes, random base64, valid ciphertexts (right/wrong password), every kind of text- and raw-level deletion/truncation/bit flip, and structured metadata (length prefix, JSON fields, scrypt parameters, nonce/salt sizes; for sha256-xor payload edits with a recomputed outer checksum); all drawn from the run seed",
 		"harness safety bound: crafted scrypt metadata keeps N*r <= 2^15, p <= 4, keyLen <= 1024 (a crafted N=2^30 would make the code allocate terabytes; that resource question is outside this check)",
 		"the secret scan looks for plain, hex (both cases) and base64 (std/raw/url) encodings and, for mnemonics, every run of four consecutive words; other encodings are not searched",
-		"a hang of the decrypt child is reported as inconclusive, not as a violation")
+		"a hang of the decrypt child is reported as inconclusive, not as a violation",
+		"L: a mutated file the loader refuses (error, or a panic inside the loader) is counted and dropped, and so is a file the loader accepts although its own IsEncrypted cannot read the flag; meta fields that are absent and fields that are empty are treated as equal when comparing the serialisation before lock and after unlock; files without a crypto type cost a default-scrypt derivation per step, so that class is small (3 files in the quick tier, one other password on one of them)")
 }
 
 // =====================================================================================
